@@ -192,3 +192,35 @@ theorem parse_keeps (kinds : Array Kind) (fuel : Nat) (hE : Env.Ok E) (hk : Kind
   · exact KA.node cov .Program ch (hG1 ⟨SK.Program.toNat, ch⟩ (by rw [hst]; simp)) (ShapeOK.triv cov _ _ rfl)
 
 end Mimium.Grammar
+
+namespace Mimium.CstPrint
+open Mimium.Gen (Kind SK)
+open Mimium.Cst (Green)
+
+mutual
+/-- on a tree whose node kinds are all in `S`, `keepsAllOn S` is `keepsAll` -/
+theorem keepsAll_of_on (S : SK → Bool) (c : Ctx) : ∀ (g : Green), keepsAllOn S c g = true → usesOnly S g = true → keepsAll c g = true
+  | .token _ _, _, _ => rfl
+  | .node k cs, h, hu => by
+    simp only [keepsAllOn, nodeKeepsOn, Bool.and_eq_true] at h
+    simp only [usesOnly, Bool.and_eq_true] at hu
+    simp only [keepsAll, nodeKeeps, Bool.and_eq_true]
+    refine ⟨?_, keepsAllL_of_on S c cs h.2 hu.2⟩
+    cases hk : Gen.skOfNat k with
+    | none => rw [hk] at hu; simp at hu
+    | some sk =>
+      rw [hk] at h hu
+      simp only at hu
+      have := h.1
+      simp only [hu.1, Bool.not_true, Bool.false_or] at this
+      exact this
+theorem keepsAllL_of_on (S : SK → Bool) (c : Ctx) : ∀ (gs : List Green), keepsAllOnL S c gs = true → usesOnlyL S gs = true → keepsAllL c gs = true
+  | [], _, _ => rfl
+  | g :: gs, h, hu => by
+    simp only [keepsAllOnL, Bool.and_eq_true] at h
+    simp only [usesOnlyL, Bool.and_eq_true] at hu
+    simp only [keepsAllL, Bool.and_eq_true]
+    exact ⟨keepsAll_of_on S c g h.1 hu.1, keepsAllL_of_on S c gs h.2 hu.2⟩
+end
+
+end Mimium.CstPrint
